@@ -429,3 +429,43 @@ def opt_attr(e) -> Optional[str]:
         if isinstance(v, ast.Attribute) and v.attr in ("options", "__options__"):
             return e.attr
     return None
+
+
+# ---- string folding (patterns, templates) ------------------------------------------------------------
+
+def fold_str(e, *scopes) -> Optional[str]:
+    """the string a literal expression denotes: constants, `+` concatenation, f-strings and names whose values are found
+    in the given scopes (dicts name -> ast node: class assigns, module assigns). None when it is not a compile-time string"""
+    def look(name, depth):
+        for sc in scopes:
+            if name in sc:
+                return go(sc[name], depth + 1)
+        return None
+
+    def go(x, depth=0):
+        if depth > 8 or x is None:
+            return None
+        if isinstance(x, ast.Constant):
+            return x.value if isinstance(x.value, str) else None
+        if isinstance(x, ast.Name):
+            return look(x.id, depth)
+        if isinstance(x, ast.Attribute) and isinstance(x.value, ast.Name) and x.value.id in ("cls", "self"):
+            return look(x.attr, depth)
+        if isinstance(x, ast.BinOp) and isinstance(x.op, ast.Add):
+            a, b = go(x.left, depth + 1), go(x.right, depth + 1)
+            return a + b if a is not None and b is not None else None
+        if isinstance(x, ast.JoinedStr):
+            out = []
+            for v in x.values:
+                if isinstance(v, ast.Constant):
+                    out.append(str(v.value))
+                elif isinstance(v, ast.FormattedValue) and v.format_spec is None and v.conversion == -1:
+                    s_ = go(v.value, depth + 1)
+                    if s_ is None:
+                        return None
+                    out.append(s_)
+                else:
+                    return None
+            return "".join(out)
+        return None
+    return go(e)
